@@ -49,10 +49,10 @@ CHECKS["C05"] = _c(
 
 CHECKS["C06"] = _c(
     "exploration",
-    "runtime monitoring: event trace behind S3Service::call judged against a reference presign verifier and window arithmetic on the real clock (5 s margin); URLs from a reference presigner and from aws-sdk-s3's presigner",
+    "runtime monitoring: event trace behind S3Service::call judged against a reference presign verifier and window arithmetic on the real clock (5 s margin, plus clock-aligned requests that resolve the window boundaries to a fraction of a second); URLs from a reference presigner and from aws-sdk-s3's presigner; HTTP/1.1 and HTTP/2 (authority) forms; fresh and reused service instances",
     "harness (raw request driver)",
     "Presigned URLs from two independent presigners, with the signing time placed clearly before, inside (near both ends and middle) and after the validity window and Expires from 1 s to 2^32-1, plus ~45 mutants per URL (every X-Amz-* parameter removed, duplicated, moved to a header, lower-cased, value-changed; ordinary parameters added / dropped / changed / duplicated / shadowed; method, path, host, signed header, secret) are sent through the real service; a valid in-window URL must be authenticated as the key of X-Amz-Credential, everything else refused with no hook or backend event. Held on the executions observed.",
-    "Trusted: reference presigner/verifier (AWS example vector at start-up; agreement with the SDK presigner is observed on every SDK URL because the service must accept them). Window boundaries are resolved to +-5 s against the real clock; Expires > 604800 only on the reject side.",
+    "Trusted: reference presigner/verifier (AWS example vector at start-up; agreement with the SDK presigner is observed on every SDK URL because the service must accept them). Window boundaries: +-5 s for the generated placements; the clock-aligned leg issues requests 0.25-0.6 s into a second with the boundary on this / the next whole second and demands a verdict only where it cannot depend on the duration of the call. Expires > 604800 only on the reject side.",
     "DESIGN.md 3/C06",
 )
 
@@ -157,10 +157,10 @@ CHECKS["C16"] = _c(
 
 CHECKS["C17"] = _c(
     "exploration",
-    "runtime monitoring: s3s-fs behind S3Service::call in a scratch directory; recursive directory snapshots (path, type, size, SHA-256, mtime) of the whole scratch tree before and after every operation, changed paths classified by zone; response searched for content markers of other buckets and of a sentinel tree outside the root",
+    "runtime monitoring: s3s-fs behind S3Service::call in a scratch directory; recursive directory snapshots (path, type, size, SHA-256, mtime) of the whole scratch tree before and after every operation, changed paths classified by zone; response searched for content markers of other buckets and of a sentinel tree outside the root; second leg: the same operations in child processes under strace -f -y -e trace=%file, every path argument of every file system call between per-operation marker calls classified by the same zones",
     "harness (store driver)",
-    "Over a store with three populated buckets, live multipart bookkeeping and a sentinel tree next to the root, every object-level operation (incl. CopyObject with hostile destination and hostile source, DeleteObjects, ListObjectsV2 prefix) is issued with ~55 traversal-rich keys and every multipart operation with hostile upload ids and keys; any created / deleted / modified / touched path outside the addressed bucket and its own bookkeeping files, and any response carrying another bucket's, a bookkeeping file's or the sentinel's content, is a violation. Held on the operations observed.",
-    "Trusted: the snapshot walker (std::fs). Reads are observable only through responses (the strace-based syscall monitor sketched in DESIGN.md is not part of this revision). Hostile bucket names never reach the backend (adapter validation, C12).",
+    "Over a store with four populated buckets (one whose name merely continues the addressed bucket's name), live multipart bookkeeping and a sentinel tree next to the root, every object-level operation (incl. CopyObject with hostile destination and hostile source, DeleteObjects, ListObjectsV2 prefix) is issued with ~55 traversal-rich keys and every multipart operation with hostile upload ids and keys; any created / deleted / modified / touched path outside the addressed bucket and its own bookkeeping files, and any response carrying another bucket's, a bookkeeping file's or the sentinel's content, is a violation. Held on the operations observed.",
+    "Trusted: the snapshot walker (std::fs); strace's rendering of path arguments (dirfd annotation -y), lexical path normalisation (the scratch tree holds no symbolic links). Files that are merely opened, read or stat-ed are seen by the syscall leg; it is reported inconclusive, and the snapshot leg alone decides, where strace cannot trace. Hostile bucket names never reach the backend (adapter validation, C12).",
     "DESIGN.md 3/C17",
 )
 
@@ -175,7 +175,7 @@ CHECKS["C18"] = _c(
 
 CHECKS["C19"] = _c(
     "fault_enumeration",
-    "runtime monitoring with fault injection at the request boundary: s3s-fs behind S3Service::call in a scratch root; the request future is polled by hand so that it can be dropped after any poll; body faults are injected by the framed request body (error / stall at frame k); a GET of the key and a listing of the root after every fault; concurrent writers and readers on an 8-thread runtime",
+    "runtime monitoring with fault injection at the request boundary: s3s-fs behind S3Service::call in a scratch root; the request future is polled by hand so that it can be dropped after any poll; body faults are injected by the framed request body (error / stall at frame k); a GET of the key and a listing of the root after every fault; concurrent writers and readers on an 8-thread runtime; crash points and system-call faults: the write runs in a child process under strace, which is killed on entering the k-th system call on the files of the write or has that call fail with ENOSPC / EIO / EACCES, then the store is opened again",
     "harness (store driver; framed body with error / stall injection; hand-polled request future)",
     "Previous state absent / present x one fault per run: transport error instead of frame k of an n-frame upload (every k thorough; first / middle / last in most quick groups), client stall before frame k then drop of the request, request dropped after p polls (p = 1..48), wrong checksum of each algorithm the backend verifies (right ones as controls), chunk-signed upload with a corrupted signature in chunk k or cut short after chunk k, CopyObject with a missing source or dropped after p polls, CompleteMultipartUpload naming a missing part / parts out of order / dropped after p polls. Afterwards: refused => the previous content (or absence); abandoned => the previous or the complete new content; acknowledged => the complete new content; never a .tmp.* file in the root. Concurrency: 2-8 writers (uploads with Pending schedules, CopyObject from distinct sources) with distinct contents of 2 KB-2 MB to one key with 1-3 overlapping readers: the stored content is exactly one acknowledged writer's bytes, every overlapping read that returns content returns the previous content or one writer's complete bytes, no temporary file remains. Held on the executions observed; the evidence lists (fault, previous state, position, outcome, state after) cells, distinct completion orders and the winner's completion rank.",
     "Trusted: std::fs directory listing; the hand-polling driver (300 us between polls so that tokio's blocking pool makes progress; 12 ms settle time after a drop). Not covered: process crash / power loss between write and rename and syscall-level faults (ENOSPC, EIO) - the quantifier's crash points are covered only as 'request dropped at poll p'. Reads that are answered with an error while the object is being replaced return no content and are counted, not judged.",
